@@ -137,6 +137,25 @@ def nada_main():
 """
 
 
+# a program that defines a class whose construction looks the program's own module up in sys.modules (dataclasses under
+# postponed evaluation of annotations do): the outcome must not depend on the file name or on earlier compilations
+DATACLASS_PROG = """from __future__ import annotations
+from dataclasses import dataclass
+from nada_dsl import *
+
+
+@dataclass
+class Cfg:
+    n: int = 2
+
+
+def nada_main():
+    p = Party(name="P")
+    a = SecretInteger(Input(name="a", party=p))
+    return [Output(a * Integer(Cfg().n), "o", p)]
+"""
+
+
 def programmatic_entry_points(tmp, src, helpers, reference_mir):
     """compile_script / compile_string called from Python, three times each in one new interpreter (the helper modules
     are imported once and stay cached, as Python does): every result must be the MIR the command line produced, up to the
@@ -147,6 +166,7 @@ def programmatic_entry_points(tmp, src, helpers, reference_mir):
     from .c08 import normalize
     viol = []
     d = os.path.join(tmp, "pep")
+    os.makedirs(tmp, exist_ok=True)
     os.makedirs(d, exist_ok=True)
     path = os.path.join(d, "prog_multi.py")
     with open(path, "w", encoding="utf-8") as f:
@@ -278,9 +298,24 @@ def run(res, tier):
                 evals += n2
         for kind, text in viol:
             res.violation({"property": "C13", "kind": kind, "text": text, "source": MULTI_FILE, "helpers": HELPERS}, f"multi-file program: {kind}: {text}"[:400])
+        # a program with a dataclass: every entry point, command line and programmatic (three calls each in one process)
+        viol, result = check_program("dc", DATACLASS_PROG, tmp, seeds[:2])
+        evals += 1
+        results.append(result)
+        if result != "Success":
+            viol.append(("envelope", f"the program defining a dataclass does not compile from a file: {result}"))
+        else:
+            ddc = os.path.join(tmp, "pdc")
+            refobj, _ = parse_line(cli([os.path.join(ddc, "prog_dc.py")], ddc, {"PYTHONHASHSEED": "0"})[1])
+            if refobj and refobj.get("result") == "Success":
+                v2, n2 = programmatic_entry_points(os.path.join(tmp, "dcp"), DATACLASS_PROG, {}, refobj["_mir"])
+                viol += v2
+                evals += n2
+        for kind, text in viol:
+            res.violation({"property": "C13", "kind": kind, "text": text, "source": DATACLASS_PROG}, f"program defining a dataclass: {kind}: {text}"[:400])
         # file names: two programs (one of them importing standard-library modules) under every listed name
         name_evals = 0
-        for src in [s for s in progs[:2]] + [IMPORTING + s for s in progs[:1]]:
+        for src in [s for s in progs[:2]] + [IMPORTING + s for s in progs[:1]] + [DATACLASS_PROG]:
             d = os.path.join(tmp, f"ref{name_evals}")
             os.makedirs(d, exist_ok=True)
             path = os.path.join(d, "neutral_reference_name.py")
